@@ -17,6 +17,7 @@ import (
 	"github.com/youchainhq/go-youchain/core"
 	"github.com/youchainhq/go-youchain/core/types"
 	"github.com/youchainhq/go-youchain/local"
+	"github.com/youchainhq/go-youchain/params"
 )
 
 // blockRef is what the builder produced for one height: the reference every importer must
@@ -143,6 +144,9 @@ func (s *sim) runHistory(h hooks) {
 			s.postEvidence()
 		}
 		s.steerForge()
+		if !s.dryRunEndBlock(n) {
+			break
+		}
 		if h.beforeBuild != nil {
 			h.beforeBuild(n)
 		}
@@ -400,4 +404,56 @@ func (s *sim) amend(class, more string) {
 			s.r.Violations[i].Detail += more
 		}
 	}
+}
+
+// dryRunEndBlock runs the end-of-block hook (staking.EndBlock, replay flavour: no side effects
+// on the module's evidence list) for the NEXT block on a scratch state opened on the builder's
+// head, with a header like the worker's (miner/worker.go:291-304) and the first proposer of the
+// forge's order, on a helper goroutine. The worker runs the same code on its own goroutine,
+// where a panic would kill the simulator process (harness trouble instead of a finding) and a
+// Crit could not be told from a hang; here both become observable. It sees the state as of the
+// head only (not the transactions of the block to come). Returns false if the run must end.
+func (s *sim) dryRunEndBlock(n int) bool {
+	chain := s.b.Chain
+	parent := chain.CurrentBlock()
+	yp, err := chain.VersionForRound(uint64(n))
+	if err != nil {
+		return true
+	}
+	st, err := chain.StateAt(parent.Root(), parent.ValRoot(), core.StakingRootForNewBlock(yp.StakingTrieFrequency, parent.Header()))
+	if err != nil {
+		return true
+	}
+	var proposer common.Address
+	if ctx, err := chainkit.NewCtx(chain, uint64(n), 1); err == nil {
+		for _, i := range s.b.Engine.ProposerOrder {
+			k := s.b.Engine.Keys[i]
+			if v := chainkit.StakeOf(ctx, k); v != nil && v.Status == params.ValidatorOnline && v.Kind() == params.KindChamber {
+				proposer = k.Addr
+				break
+			}
+		}
+	}
+	if proposer == (common.Address{}) {
+		return true
+	}
+	hdr := &types.Header{ParentHash: parent.Hash(), Number: new(big.Int).SetUint64(uint64(n)), Time: parent.Time() + 1, Coinbase: proposer,
+		GasLimit: core.CalcGasLimit(parent), GasRewards: new(big.Int), Subsidy: new(big.Int)}
+	if err := core.ProcessYouVersionState(parent.Header(), hdr); err != nil {
+		return true
+	}
+	before := s.panicked
+	ok := s.do(func() {
+		chain.Processor().EndBlock(chain, hdr, nil, st, false, local.FakeRecorder())
+		st.IntermediateRoot(true)
+	})
+	if ok {
+		return true
+	}
+	if s.panicked != nil && s.panicked != before {
+		// re-raised at the end of the run: kit turns it into a violation (PanicInRepo)
+		s.r.Logf("the end-of-block hook for block %d (proposer %s) panics on the head state: the builder is not asked to build it", n, s.act.name(proposer))
+	}
+	s.dead = true
+	return false
 }
